@@ -60,6 +60,9 @@ pub enum ExecAuth {
     /// another operator authorises instead of the caller
     OtherOperator,
     Nobody,
+    /// the caller (an operator) authorised another forwarded call: k % 3 = 0 to another target contract, 1 under another
+    /// function name, 2 with one more argument - an authorisation covers one call
+    CallerOtherCall(u8),
 }
 
 #[derive(Clone, Debug, Serialize, Deserialize, PartialEq, Eq)]
@@ -123,7 +126,7 @@ fn op() -> impl Strategy<Value = Op> {
         4 => (by(), 0u8..NA as u8).prop_map(|(by, who)| Op::Add { by, who }),
         3 => (by(), 0u8..NA as u8).prop_map(|(by, who)| Op::Remove { by, who }),
         1 => (0u8..NA as u8).prop_map(|to| Op::TransferOwnership { to }),
-        7 => (0u8..NA as u8, prop_oneof![6 => Just(ExecAuth::Caller), 1 => Just(ExecAuth::OwnerInstead), 1 => Just(ExecAuth::OtherOperator), 1 => Just(ExecAuth::Nobody)], call())
+        7 => (0u8..NA as u8, prop_oneof![6 => Just(ExecAuth::Caller), 1 => Just(ExecAuth::OwnerInstead), 1 => Just(ExecAuth::OtherOperator), 1 => Just(ExecAuth::Nobody), 2 => (0u8..3).prop_map(ExecAuth::CallerOtherCall)], call())
             .prop_map(|(caller, auth, call)| Op::Execute { caller, auth, call }),
         1 => (1u8..60).prop_map(Op::AdvanceDays),
         1 => Just(Op::UpgradeAndMigrate),
@@ -356,21 +359,34 @@ impl Property for C17 {
                     }
                     let func = Symbol::new(&env, fname);
                     let signer: Option<Address> = match auth {
-                        ExecAuth::Caller => Some(pool[ci].clone()),
+                        ExecAuth::Caller | ExecAuth::CallerOtherCall(_) => Some(pool[ci].clone()),
                         ExecAuth::OwnerInstead => Some(owner.clone()),
                         ExecAuth::OtherOperator => (0..NA).find(|i| *i != ci && member[*i]).map(|i| pool[i].clone()).or(Some(stranger.clone())),
                         ExecAuth::Nobody => None,
                     };
                     match &signer {
                         Some(s) => {
+                            // what the signer signed: the studied call, or (CallerOtherCall) a neighbouring one
+                            let (s_callee, s_func, s_args) = match auth {
+                                ExecAuth::CallerOtherCall(k) => {
+                                    let mut more = sargs.clone();
+                                    more.push_back(1u32.into_val(&env));
+                                    match k % 3 {
+                                        0 => (if callee == gas_id { target_id.clone() } else { gas_id.clone() }, func.clone(), sargs.clone()),
+                                        1 => (callee.clone(), Symbol::new(&env, if fname == "noargs" { "echo1" } else { "noargs" }), sargs.clone()),
+                                        _ => (callee.clone(), func.clone(), more),
+                                    }
+                                }
+                                _ => (callee.clone(), func.clone(), sargs.clone()),
+                            };
                             let inv = MockAuthInvoke {
                                 contract: &ops_id,
                                 fn_name: "execute",
-                                args: (pool[ci].clone(), callee.clone(), func.clone(), sargs.clone()).into_val(&env),
+                                args: (pool[ci].clone(), s_callee, s_func, s_args).into_val(&env),
                                 sub_invokes: &[],
                             };
                             if is_account_kind(s) {
-                                if *s != pool[ci] {
+                                if *s != pool[ci] || matches!(auth, ExecAuth::CallerOtherCall(_)) {
                                     cx.count("skipped_account_kind_signer_other_than_the_principal");
                                     continue;
                                 }
@@ -381,7 +397,11 @@ impl Property for C17 {
                         }
                         None => env.mock_auths(&[]),
                     }
-                    let authorised = signer.as_ref() == Some(&pool[ci]);
+                    let authorised = signer.as_ref() == Some(&pool[ci]) && !matches!(auth, ExecAuth::CallerOtherCall(_));
+                    if matches!(auth, ExecAuth::CallerOtherCall(_)) && member[ci] {
+                        cx.label("operator_signed_another_forwarded_call");
+                        nontrivial = true;
+                    }
                     let target_ok = !matches!(call, Call::Fail(_) | Call::SumWrongArity(_) | Call::Unknown | Call::CollectFees(0));
                     let expect_ok = authorised && member[ci] && target_ok;
                     if was_member[ci] && !member[ci] {
